@@ -51,6 +51,29 @@ def gen_fields(d, nmax=4, widths=TINY_W, enums=None, p_signed=35, p_rand=75, p_e
     return fs, en
 
 
+def add_list(d, fs, cls, max_bits=None, name="l"):
+    """give the class a fixed-size scalar list and add its elements to the field table as pseudo-fields 'l[i]' (named in
+    statements by constant subscripts).  Random list (rand_list_t) or non-random list (list_t)."""
+    n = d.randint(1, 2)
+    w = d.choice([1, 2, 2, 3])
+    sg = d.chance(20)
+    rnd = d.chance(75)
+    if max_bits is not None and rnd:
+        used = sum((f["w"] if f["kind"] != "enum" else 2) for f in fs if f["rand"])
+        while n * w > max(0, max_bits - used) and w > 1:
+            w -= 1
+        while n * w > max(0, max_bits - used) and n > 1:
+            n -= 1
+        if n * w > max(0, max_bits - used):
+            rnd = False
+    cls["lists"] = [{"name": name, "elem": {"kind": "int" if sg else "bit", "w": w, "signed": sg},
+                     "mode": "fixed" if rnd else "nonrand", "size": n}]
+    for i in range(n):
+        f = {"name": "%s[%d]" % (name, i), "kind": "int" if sg else "bit", "w": w, "signed": sg, "rand": rnd}
+        f["init"] = rand_in_type(d, f)
+        fs.append(f)
+
+
 def types_of(fields):
     return {f["name"]: f for f in fields}
 
